@@ -469,7 +469,7 @@ def _run_modeliso(case, ctx):
     explicit_p = name in GM.PRESSURE_EXPLICIT
     for q in range(6):
         req_p = r.choice(RU.PRESSURE_REPR)
-        req_l = r.choice(RU.LOADING_REPR[:25])  # fraction/percent requests are C03's domain
+        req_l = r.choice(RU.LOADING_REPR[:25]) if q else r.choice(RU.LOADING_REPR[25:])  # (one query per case on a fractional basis: loading per amount of material)
         req_m = r.choice(RU.MATERIAL_REPR)
         try:
             fp = RU.pressure_factor(req_p[0], req_p[1], native_p[0], native_p[1], fl, T)  # requested -> native
@@ -494,6 +494,11 @@ def _run_modeliso(case, ctx):
         n_req = n_nat * fln
         kw_p = {"pressure_mode": req_p[0], "pressure_unit": req_p[1]}
         kw_l = {"loading_basis": req_l[0], "loading_unit": req_l[1], "material_basis": req_m[0], "material_unit": req_m[1]}
+        kw_l_in = dict(kw_l)
+        if req_l[0] in ("fraction", "percent"):
+            # (pressure_at documents that a loading on another basis needs a unit named with it; fractions have none, any will do)
+            kw_l_in["loading_unit"] = native_l[1] or "mmol"
+            ctx.count("modeliso", "fractional-basis-query")
         # The comparison is made in a band: the unit factors carry a relative uncertainty rt (rounded pyGAPS
         # constants), which the model amplifies by its local slope; the band is obtained by evaluating the bare
         # model at the perturbed argument, so no conditioning estimate has to be guessed.
@@ -529,7 +534,7 @@ def _run_modeliso(case, ctx):
                     key = "Virial.loading/unreliable-through-ModelIsotherm"
                 ctx.violation(key, "value differs from bare model after reference unit conversion", model=name, P=P, units=units, req=[req_p, req_l, req_m], got=got, expected=n_req, band=b,
                               p_native=p_nat, n_native=n_nat)
-        st, got = _call(lambda: iso.pressure_at(n_req, **kw_p, **kw_l))
+        st, got = _call(lambda: iso.pressure_at(n_req, **kw_p, **kw_l_in))
         ctx.case([name, dg, "pressure_at", req_p, req_l, req_m])
         ctx.count("modeliso", "pressure_at")
         numeric = name in GM.NUMERIC_INVERSE and not explicit_p
